@@ -23,7 +23,7 @@ THOROUGH = [
     dict(mode="ex", maxops=3, maxobjs=4, sizes="SizesSmall", shapes="ShapesSmall", complens="{2}", ops=OPS),
     dict(mode="ex", maxops=2, maxobjs=4, sizes="SizesAll", shapes="ShapesAll", complens="{0, 1, 3}", ops=OPS),
     dict(mode="sim", maxops=12, maxobjs=10, sizes="SizesAll", shapes="ShapesAll", complens="{0, 1, 2, 3}", ops=OPS, num=600, per_prefix=2, limit=8000),
-    dict(mode="sim", maxops=7, maxobjs=9, sizes="SizesSmall", shapes="ShapesTiny", complens="{1, 2}", ops="OpsAll", plan="PlanOverwrite", num=4000, per_prefix=2, limit=12000),
+    dict(mode="sim", maxops=7, maxobjs=9, sizes="SizesSmall", shapes="ShapesTiny", complens="{1, 2}", ops="OpsAll", plan="PlanOverwrite", num=1500, per_prefix=2, limit=4000),
 ]
 
 
